@@ -57,7 +57,7 @@ def allowedFn (mode : String) (list : List Nat) : Nat → Bool :=
 
 /-- all in-range draws for a heap map of `len` entries and limit `n` -/
 def offsetPairs (len n : Nat) : List (Nat × Nat) :=
-  if len ≤ n then [(0, 0)] else
+  if len ≤ n ∨ n / 2 = 0 then [(0, 0)] else   -- with n / 2 = 0 both slices are empty whatever the draws
   match halvesBounds len n with
   | .ok (t1, t2) =>
     (List.range t1).flatMap (fun o1 => ((List.range t2).filter (len / 2 ≤ ·)).map (fun o2 => (o1, o2)))
@@ -265,7 +265,7 @@ def step (s : St) (ts : List String) : St × Verdict × List String :=
       (s, .specfail s!"tracker process: {rest}", ["net-problem"])
     else
       let nw := match rest.find? (·.startsWith "swarm_workers=") with | some t => nat! ((t.splitOn "=").getD 1 "1") | none => 1
-      (s.withWorkers nw, .skip, rest.filter (fun t => t.startsWith "socket_workers" ∨ t.startsWith "swarm_workers" ∨ t.startsWith "keep_alive" ∨ t = "boundary=true" ∨ t = "proxy=true"))
+      (s.withWorkers nw, .skip, rest.filter (fun t => t.startsWith "socket_workers" ∨ t.startsWith "swarm_workers" ∨ t.startsWith "keep_alive" ∨ t = "boundary=true" ∨ t = "proxy=true" ∨ t = "bigswarm=true"))
   | "ann" :: fam :: rest =>
     if out.head? = some "NOREPLY" then
       -- no complete reply reached the client; the announce may or may not have been applied
